@@ -348,6 +348,7 @@ func runHTLC(c *Ctx) {
 	}
 	runHTLCSigAll(c, w, now, pre, goodHash)
 	runHTLCHelpers(c, w, now, pre, goodHash)
+	runHTLCRegressions(c, w, now, pre, goodHash)
 	c.Res.Exhaustive = true
 }
 
@@ -686,6 +687,73 @@ func runHTLCHelpers(c *Ctx, w *spendWorld, now int64, pre, goodHash string) {
 		c.Hist("helpers/ops", lbls[i])
 		if ans[i] != impls[i] {
 			c.Disagree(props, Render(ops[i]), impls[i], ans[i], nil)
+		}
+	}
+}
+
+// ---------------------------------------------------------------- regressions: the minimal witnesses of F6 (HTLC path) and F8
+
+func runHTLCRegressions(c *Ctx, w *spendWorld, now int64, pre, goodHash string) {
+	k0 := w.keys[0]
+	// F6 in the HTLC path: one listed key, threshold 2, two signatures of that key
+	tags := [][]string{{"n_sigs", "2"}, {"pubkeys", k0.hex}}
+	secret := secretString(nut10.HTLC, strings.Repeat("f6", 32), goodHash, tags)
+	d := secretDigest(secret)
+	p := cashu.Proof{Amount: 1, Id: "00", C: "02", Secret: secret, Witness: htlcWitnessJSON(pre, []string{w.sign(k0, d, 0), w.sign(k0, d, 1)})}
+	impl := guardOutcome(func() error {
+		s, _ := nut10.DeserializeSecret(p.Secret)
+		return nut14.VerifyHTLCProof(p, s)
+	})
+	c.Case("regression/F6-htlc/"+impl, true)
+	c.Hist("regression", "F6 (HTLC) 2-of-1 -> "+impl)
+	if impl == "ok" {
+		c.MonitorFail("C13", "C13/hasValidSignatures/last-key-recount", "regression witness of F6 accepted: two signatures of the only listed key meet n_sigs=2",
+			map[string]any{"secret": p.Secret, "witness": p.Witness})
+	}
+	e := w.newEnv(now)
+	px := e.proofSx(p)
+	if m := c.Drv.Ask(L(A("spend.htlc"), e.Sx(), px)); m != impl {
+		c.Disagree([]string{"C13"}, "regression F6-htlc", impl, m, nil)
+	}
+	// F8: SIG_ALL HTLC input (threshold 1, key k0); outputs signed by the helper
+	saTags := [][]string{{"sigflag", "SIG_ALL"}, {"n_sigs", "1"}, {"pubkeys", k0.hex}}
+	sec := secretString(nut10.HTLC, strings.Repeat("f8", 32), goodHash, saTags)
+	s0, _ := nut10.DeserializeSecret(sec)
+	ins, err := nut14.AddWitnessHTLC(cashu.Proofs{{Amount: 1, Id: "00", C: "02", Secret: sec}}, s0, pre, k0.priv)
+	if err != nil {
+		c.Disagree([]string{"C13"}, "regression F8", "AddWitnessHTLC failed: "+err.Error(), "", nil)
+		return
+	}
+	outs := cashu.BlindedMessages{{Amount: 1, Id: "00", B_: w.keys[3].hex}}
+	so, err := nut14.AddWitnessHTLCToOutputs(append(cashu.BlindedMessages{}, outs...), pre, k0.priv)
+	implV := "helper failed"
+	if err == nil {
+		implV = guardOutcome(func() error { return mint.VerifVerifyBlindedMessages(ins, so) })
+	}
+	c.Case("regression/F8/"+implV, true)
+	c.Hist("regression", "F8 helper-signed output -> "+implV)
+	if implV != "ok" {
+		c.MonitorFail("C13", "C13/AddWitnessHTLCToOutputs/hex-text", "regression witness of F8: the output witness written by AddWitnessHTLCToOutputs is rejected: "+implV,
+			map[string]any{"proofs": ins, "outputs": so})
+	}
+	// the OLD helper output (signature over the hex text) must be refused by the mint
+	old := cashu.BlindedMessages{{Amount: 1, Id: "00", B_: outs[0].B_, Witness: htlcWitnessJSON(pre, []string{w.sign(k0, sha256.Sum256([]byte(outs[0].B_)), 0)})}}
+	implOld := guardOutcome(func() error { return mint.VerifVerifyBlindedMessages(ins, old) })
+	c.Case("regression/F8-old/"+implOld, true)
+	c.Hist("regression", "F8 old-style (hex-text) output -> "+implOld)
+	if implOld == "ok" {
+		c.MonitorFail("C13", "C13/verifyBlindedMessages/accepts-unsigned", "an output signed over the hex text of B_ is accepted", map[string]any{"proofs": ins, "outputs": old})
+	}
+	for _, oo := range []cashu.BlindedMessages{so, old} {
+		if oo == nil {
+			continue
+		}
+		e := w.newEnv(now)
+		pxs := e.proofsSx(ins)
+		oxs := e.outputsSx(oo, nut10.HTLC)
+		want := guardOutcome(func() error { return mint.VerifVerifyBlindedMessages(ins, oo) })
+		if m := c.Drv.Ask(L(A("spend.outputs"), e.Sx(), pxs, oxs)); m != want {
+			c.Disagree([]string{"C13"}, "regression F8 outputs", want, m, nil)
 		}
 	}
 }
